@@ -259,7 +259,7 @@ func (s *uploadOutputsState) uploadOutputFile(d UploadableDirectory, name path.C
 func (s *uploadOutputsState) uploadOutputSymlink(d UploadableDirectory, name path.Component, childPath *path.Trace, outputSymlinks *[]*remoteexecution.OutputSymlink, paths []string) {
 	if targetParser, err := d.Readlink(name); err == nil {
 		targetPath, scopeWalker := path.EmptyBuilder.Join(path.VoidScopeWalker)
-		if path.Resolve(targetParser, scopeWalker); err == nil {
+		if err := path.Resolve(targetParser, scopeWalker); err == nil {
 			target := targetPath.GetUNIXString()
 			for _, path := range paths {
 				*outputSymlinks = append(
@@ -329,7 +329,7 @@ func (s *uploadOutputDirectoryState) uploadDirectory(d UploadableDirectory, dPat
 		case filesystem.FileTypeSymlink:
 			if targetParser, err := d.Readlink(name); err == nil {
 				targetPath, scopeWalker := path.EmptyBuilder.Join(path.VoidScopeWalker)
-				if path.Resolve(targetParser, scopeWalker); err == nil {
+				if err := path.Resolve(targetParser, scopeWalker); err == nil {
 					directory.Symlinks = append(directory.Symlinks, &remoteexecution.SymlinkNode{
 						Name:   name.String(),
 						Target: targetPath.GetUNIXString(),
